@@ -1,5 +1,6 @@
 import HcipyVerif.Model.Proto
 import HcipyVerif.Model.Layer
+import HcipyVerif.Model.LayerHeap
 
 /-! Line-protocol front end of the C15 model.
 
@@ -12,6 +13,12 @@ inf new nx ny dx dy vx vy cn2 L0 seed | inf evolve t | inf reset 0|1 | inf setcn
          `inf evolveq t` = evolve, answer without pars/scr)
 phases sx sy [kx…] [ky…]   (phasesold …)                      → ok [S_0,…]      flat, x fastest
 extrude left|right|top|bottom W H [new…] [screen…]            → ok […]          (naturals)
+hfin new int|gen|genshared nx ny vx vy cn2 L0 seed | hfin evolve t | reset b | setcn2 c | setl0 l | setvel vx vy | read |
+     cdraw n  (the caller draws n numbers from the generator it passed as `seed=`)
+      → the `fin` answer of the view + valid=0|1 cache=0|1 caller=P|- al=<rng is orig><orig is caller><rng is caller>
+        cells=N [shown=pos|cn2|L0|cx|cy after read]            (heap model with lazy noise and cached screen)
+hinf new int|gen|genshared nx ny dx dy vx vy cn2 L0 seed | hinf evolve t | evolveq t | reset b | set… | cdraw n
+      → the `inf` answer of the view + caller= al= cells=
 ```
 -/
 namespace HcipyVerif.Driver.C15
@@ -20,6 +27,8 @@ open HcipyVerif.Proto HcipyVerif.Layer HcipyVerif.Shift
 structure St where
   fin : Option FinL := none
   inf : Option InfL := none
+  hfin : Option (HFin × Bool) := none
+  hinf : Option (HInf × Bool) := none
 
 def showV2 (v : V2) : String := s!"[{showRat v.1},{showRat v.2}]"
 
@@ -41,6 +50,42 @@ def showInf (L : InfL) : String :=
 def showInfQ (L : InfL) : String :=
   s!"ok c={showV2 L.center} t={showRat L.t} sub={showV2 L.sub} rng={L.rng.pos} orig={L.orig.pos} hist={L.hist} " ++
   s!"v={showV2 L.vel} par={showPar L.par}"
+
+def b01 (b : Bool) : String := if b then "1" else "0"
+
+def showHeap {σ : Type} (H : HL σ) (caller : Bool) : String :=
+  s!" caller={if caller then toString (H.get 0).pos else "-"} al={b01 (H.rngH == H.origH)}" ++
+  s!"{b01 (caller && H.origH == 0)}{b01 (caller && H.rngH == 0)} cells={H.cells.length}"
+
+def showHFin (H : HFin) (caller : Bool) (read : Bool) : String :=
+  let C := H.view finAccess
+  showFin C.base ++ s!" valid={b01 C.valid} cache={b01 C.cache.isSome}" ++ showHeap H caller ++
+  (if read then
+    match C.cache with
+    | some (n, p, c) => s!" shown={n.pos}|{showRat p.cn2}|{showRat p.L0}|{showRat c.1}|{showRat c.2}"
+    | none => " shown=none"
+   else "")
+
+def parseKind? (s : String) : Option SeedKind :=
+  if s == "int" then some .int else if s == "gen" then some .gen else if s == "genshared" then some .genShared else none
+
+def hfinOp (st : St) (o : COp) : St × String :=
+  match st.hfin with
+  | some (H, c) => let H := H.step finAccess o; ({ st with hfin := some (H, c) }, showHFin H c (o == .read))
+  | none => (st, "bad-op")
+
+def hinfOp (st : St) (o : Op) (quiet : Bool := false) : St × String :=
+  match st.hinf with
+  | some (H, c) =>
+    match o with
+    | .evolve t =>
+      if t < (H.view infAccess).t then (st, "err value") else
+      let H := H.step infAccess o
+      ({ st with hinf := some (H, c) }, (if quiet then showInfQ else showInf) (H.view infAccess) ++ showHeap H c)
+    | _ =>
+      let H := H.step infAccess o
+      ({ st with hinf := some (H, c) }, showInf (H.view infAccess) ++ showHeap H c)
+  | none => (st, "bad-op")
 
 def parseBool? (s : String) : Option Bool :=
   if s == "0" then some false else if s == "1" then some true else none
@@ -114,6 +159,63 @@ def step (st : St) : List String → St × String
   | ["inf", "reset", b] =>
     match st.inf, parseBool? b with
     | some L, some b => let L := L.reset b; ({ st with inf := some L }, showInf L)
+    | _, _ => (st, "bad-op")
+  | ["hfin", "new", k, nx, ny, vx, vy, cn2, l0, seed] =>
+    match parseKind? k, parseNat? nx, parseNat? ny, parseRat? vx, parseRat? vy, parseRat? cn2, parseRat? l0, parseNat? seed with
+    | some k, some nx, some ny, some vx, some vy, some cn2, some l0, some seed =>
+      let H := HFin.new k nx ny (vx, vy) ⟨cn2, l0⟩ ⟨seed, 0⟩
+      ({ st with hfin := some (H, k != .int) }, showHFin H (k != .int) false)
+    | _, _, _, _, _, _, _, _ => (st, "bad-op")
+  | ["hfin", "setcn2", c] => match parseRat? c with
+    | some c => hfinOp st (.op (.setCn2 c))
+    | none => (st, "bad-op")
+  | ["hfin", "setl0", c] => match parseRat? c with
+    | some c => hfinOp st (.op (.setL0 c))
+    | none => (st, "bad-op")
+  | ["hfin", "setvel", vx, vy] => match parseRat? vx, parseRat? vy with
+    | some vx, some vy => hfinOp st (.op (.setVel (vx, vy)))
+    | _, _ => (st, "bad-op")
+  | ["hfin", "evolve", t] => match parseRat? t with
+    | some t => hfinOp st (.op (.evolve t))
+    | none => (st, "bad-op")
+  | ["hfin", "reset", b] => match parseBool? b with
+    | some b => hfinOp st (.op (.reset b))
+    | none => (st, "bad-op")
+  | ["hfin", "read"] => hfinOp st .read
+  | ["hfin", "cdraw", n] =>
+    match st.hfin, parseNat? n with
+    | some (H, true), some n => let H := H.foreignDraw 0 n; ({ st with hfin := some (H, true) }, showHFin H true false)
+    | _, _ => (st, "bad-op")
+  | ["hinf", "new", k, nx, ny, dx, dy, vx, vy, cn2, l0, seed] =>
+    match parseKind? k, parseNat? nx, parseNat? ny, parseRat? dx, parseRat? dy, parseRat? vx, parseRat? vy, parseRat? cn2,
+        parseRat? l0, parseNat? seed with
+    | some k, some nx, some ny, some dx, some dy, some vx, some vy, some cn2, some l0, some seed =>
+      if dx = 0 || dy = 0 then (st, "bad-op") else
+      let H := HInf.new k nx ny (dx, dy) (vx, vy) ⟨cn2, l0⟩ ⟨seed, 0⟩
+      ({ st with hinf := some (H, k != .int) }, showInf (H.view infAccess) ++ showHeap H (k != .int))
+    | _, _, _, _, _, _, _, _, _, _ => (st, "bad-op")
+  | ["hinf", "setcn2", c] => match parseRat? c with
+    | some c => hinfOp st (.setCn2 c)
+    | none => (st, "bad-op")
+  | ["hinf", "setl0", c] => match parseRat? c with
+    | some c => hinfOp st (.setL0 c)
+    | none => (st, "bad-op")
+  | ["hinf", "setvel", vx, vy] => match parseRat? vx, parseRat? vy with
+    | some vx, some vy => hinfOp st (.setVel (vx, vy))
+    | _, _ => (st, "bad-op")
+  | ["hinf", "evolve", t] => match parseRat? t with
+    | some t => hinfOp st (.evolve t)
+    | none => (st, "bad-op")
+  | ["hinf", "evolveq", t] => match parseRat? t with
+    | some t => hinfOp st (.evolve t) true
+    | none => (st, "bad-op")
+  | ["hinf", "reset", b] => match parseBool? b with
+    | some b => hinfOp st (.reset b)
+    | none => (st, "bad-op")
+  | ["hinf", "cdraw", n] =>
+    match st.hinf, parseNat? n with
+    | some (H, true), some n =>
+      let H := H.foreignDraw 0 n; ({ st with hinf := some (H, true) }, showInf (H.view infAccess) ++ showHeap H true)
     | _, _ => (st, "bad-op")
   | ["phases", sx, sy, kx, ky] =>
     match parseRat? sx, parseRat? sy, parseRatList? kx, parseRatList? ky with
